@@ -2,7 +2,7 @@
 # usage: tools/try_seed.sh <patch.diff> <PROP> [extra check args]  -- applies the patch to a scratch
 # worktree of /repo HEAD under /tmp, runs the check against it, removes the worktree.
 set -u
-patch=$1; prop=$2; shift 2
+patch=$(readlink -f "$1"); prop=$2; shift 2
 wt=/tmp/try_$$
 git -C /repo worktree add --detach $wt HEAD -q || exit 2
 git -C $wt apply "$patch" 2>/dev/null || git -C $wt apply -3 "$patch" || { git -C /repo worktree remove --force $wt; exit 2; }
